@@ -288,6 +288,41 @@ theorem c15_waits_bounded (m : Base) (outs : List Bool) (h : m.initialWait ≤ m
   · exact attemptReopen_sleeps m outs _ 0 h w hw
   · simp [sleeps] at hw
 
+/-- The budget is per outage ("reopens successfully as often as the monitor policy allows"): for ANY
+sequence of unclean closes handled by one runner in which outage i needs k_i failing `Open`s before
+one succeeds, k_i < MaxReopenAttempts, EVERY outage ends reopened and the runner never returns —
+failed attempts of earlier, healed outages are not charged to a later one. -/
+theorem c15_budget_per_outage (m : Base) (ks : List Nat) (h : ∀ k ∈ ks, k < m.maxReopenAttempts) :
+    (runner m.policy (ks.map fun k => (false, outageOuts k []))).count .reopenSucceeded = ks.length ∧
+    MEv.terminated ∉ runner m.policy (ks.map fun k => (false, outageOuts k [])) :=
+  runner_budget_per_outage m ks h
+
+/-- … and within one outage the runner keeps trying until it succeeds: exactly k+1 attempts, one success,
+for every k < MaxReopenAttempts (the lower bound that goes with `c15_attempts_bounded`); with exactly
+MaxReopenAttempts failures it gives up after MaxReopenAttempts attempts. -/
+theorem c15_keeps_trying (m : Base) (k : Nat) (rest : List Bool) (h : k < m.maxReopenAttempts) :
+    (handleClose m.policy false (outageOuts k rest)).count .reopenSucceeded = 1 ∧
+    endsRunner (handleClose m.policy false (outageOuts k rest)) = false ∧
+    attempts (handleClose m.policy false (outageOuts k rest)) = k + 1 :=
+  handleClose_reopens m k rest h
+
+/-- Every outage starts afresh: the first wait is InitialWait and the attempt counter starts at 0
+(`handleClose` calls `attemptReopen` with the policy's initial wait and 0 previous attempts). -/
+theorem c15_outage_starts_afresh (m : Base) (outs : List Bool) (h : m.maxReopenAttempts > 0) :
+    handleClose m.policy false outs =
+      .closedUncleanly true m.initialWait :: attemptReopen m.policy outs m.initialWait 0 := by
+  have hp : m.policy.onClosedUncleanly = (decide (m.maxReopenAttempts > 0), m.initialWait) := rfl
+  simp [handleClose, hp, h]
+
+/-- A counter that survives from one outage to the next (the runner entering `attemptReopen` with the
+1 failure of an earlier, healed outage) makes the runner give up an outage the policy allows it to
+heal: MaxReopenAttempts 2, one failing attempt — with the counter at 0 it reopens, at 1 it stops. -/
+theorem c15_lifetime_counter_counterexample :
+    MEv.reopenSucceeded ∈ attemptReopen (Base.policy ⟨2, 0, 0⟩) (outageOuts 1 []) 0 0 ∧
+    MEv.terminated ∈ attemptReopen (Base.policy ⟨2, 0, 0⟩) (outageOuts 1 []) 0 1 ∧
+    MEv.reopenSucceeded ∉ attemptReopen (Base.policy ⟨2, 0, 0⟩) (outageOuts 1 []) 0 1 := by
+  decide
+
 /-- The excluded configuration: with `InitialWait > MaxWait` the first wait exceeds `MaxWait`. -/
 theorem c15_waits_counterexample :
     ∃ w ∈ sleeps (handleClose (Base.policy ⟨3, 5, 2⟩) false [true]), w > (2 : Int) := by
